@@ -407,6 +407,11 @@ func classifyTaintUse(c *Ctx, p *Prov, f *ssa.Function, i ssa.Instruction, op ss
 				argIdx = ai
 			}
 		}
+		if k == "strings.HasPrefix" && argIdx == 0 {
+			if s, ok := constString(cc.Args[1]); ok && s == "$" {
+				return "dollar-test", ""
+			}
+		}
 		switch k {
 		case "builtin len", "builtin cap":
 			if isStr {
